@@ -147,6 +147,7 @@ def main(prop, tier="quick", seed=0, replay=None, only=None, jobs=None):
                samples=samples,
                per_config=[{k: r[k] for k in r if k not in ("violations", "sample", "machinery_error", "cfg_args")} for r in results],
                known_findings_reproduced=sorted(viol_known), known_findings_not_reproduced=not_repro,
+               known_findings_rules={kid: sorted({x["rule"] for x in lst}) for kid, lst in sorted(viol_known.items())},
                rule=getattr(mod, "RULE", ""))
     if level == "model_checking":
         cov.update(states=tot["states"], transitions=tot["transitions"], traces_validated_against_impl=tot["conformed"])
